@@ -22,7 +22,7 @@ VICTIMS = [
     ("quic", {"suite": 0x1301}), ("quic", {"suite": 0x1303}),
 ]
 HIST = [("c", 90), ("s", 260), ("s", 33), ("c", 12), ("s", 5)]
-FAMILIES = ["delete", "cut", "keylog", "suite", "flip", "overwrite", "truncate", "http", "inject_short", "inject_first"]
+FAMILIES = ["delete", "cut", "keylog", "suite", "flip", "overwrite", "truncate", "record", "http", "inject_short", "inject_first"]
 INFO_REMOVING = {"delete", "cut", "keylog", "suite", "http", "inject_short", "inject_first"}
 SYMS = [0x00, 0x01, 0x3f, 0x40, 0x41, 0x7f, 0x80, 0xbf, 0xc0, 0xc3, 0xff]
 
@@ -34,7 +34,8 @@ def describe(tier):
                 "suite replaced by unsupported values; bit flips (bits 0 and 7" + ("" if tier == "quick" else ", all 8 bits") +
                 ") and 00/ff overwrites at " + ("every payload byte <12 then every 41st (ff only)" if tier == "quick" else "every payload byte") +
                 "; payload truncated to " + ("every length <12 then every 61st" if tier == "quick" else "every length <200 then every 3rd") +
-                "; plain HTTP on 443; injected UDP datagrams (all strings <=3 over 11 symbols on 4 tuples; every first byte x 3 "
+                "; every TLS record's type / version / length field set to boundary values, the record emptied or replaced by short alerts; "
+                "plain HTTP on 443; injected UDP datagrams (all strings <=3 over 11 symbols on 4 tuples; every first byte x 3 "
                 "bodies x 9 lengths; quick: strings <=2 on 4 tuples, length 3 on one, every first byte x 1 body x 2 lengths). non-trivial: a fault after which "
                 "both bystanders still export data; distinct = distinct (victim, fault)",
         "exhaustive": True,
@@ -240,6 +241,47 @@ def run_case(case):
                 if j == 0 and pkts[i].proto == "tcp":
                     continue
                 check(mutate(i, p[:j]), kl, {"victim": vname, "fault": "truncate", "pos": k, "length": j}, False)
+    elif fam == "record":
+        # structure-aware corruption of every TLS record of the victim: content type, version and length fields set to
+        # boundary values, the record emptied, the record duplicated
+        if victim.kind != "tls":
+            return {"n": 0}
+        conn = victim.conn
+        recs = [r for _, rs in conn.sends for r in rs]
+        for ri, rec in enumerate(recs):
+            raw = rec.raw
+            ln = len(raw) - 5
+            muts = []
+            for t in (0x14, 0x15, 0x16, 0x17, 0x18, 0x00, 0xFF):
+                if t != raw[0]:
+                    muts.append((f"type={t:#04x}", bytes([t]) + raw[1:]))
+            for v in (b"\x00\x00", b"\x03\x04", b"\xff\xff", b"\x02\x00"):
+                muts.append((f"version={v.hex()}", raw[:1] + v + raw[3:]))
+            for L in (0, 1, ln - 1, ln + 1, 0xFFFF):
+                if 0 <= L <= 0xFFFF and L != ln:
+                    muts.append((f"length={L if L in (0, 1, 0xFFFF) else ('len-1' if L == ln - 1 else 'len+1')}", raw[:3] + L.to_bytes(2, "big") + raw[5:]))
+            muts.append(("emptied", raw[:3] + b"\x00\x00"))
+            muts.append(("emptied_as_alert", b"\x15" + raw[1:3] + b"\x00\x00"))
+            muts.append(("emptied_as_handshake", b"\x16" + raw[1:3] + b"\x00\x00"))
+            muts.append(("one_byte_alert", b"\x15" + raw[1:3] + b"\x00\x01\x01"))
+            muts.append(("warning_alert_instead", b"\x15" + raw[1:3] + b"\x00\x02\x01\x00"))
+            for name, new in muts:
+                sends = [(dd, b"".join((new if r is rec else r.raw) for r in rs)) for dd, rs in conn.sends]
+                vp = cap.tcp_packets(0, sends)
+                old_v = [p for p in pkts if p.conn == 0]
+                if len(vp) != len(old_v):
+                    continue
+                it = iter(vp)
+                pk = []
+                for p in pkts:
+                    if p.conn == 0:
+                        q = next(it)
+                        q.ts = p.ts
+                        cap.render(q, ends)
+                        pk.append(q)
+                    else:
+                        pk.append(p)
+                check(pk, kl, {"victim": vname, "fault": "record_" + name, "record": ri, "kind": rec.kind, "dir": rec.dir}, False)
     elif fam == "http":
         if victim.kind != "tls":
             return {"n": 0}
